@@ -25,10 +25,23 @@ Inductive mop : Type :=
                                    gx0, fx0 = f.oracle(p); dx0 = Point();
                                    f.add_constraint((gx0 - dx0) ** 2 - eps ** 2 [* gx0 ** 2] <= 0);
                                    the returned x = p - gamma * dx0 is not recorded anywhere *)
-| MLineSearch (f : nat) (x0 : pdict) (dirs : list pdict).
+| MLineSearch (f : nat) (x0 : pdict) (dirs : list pdict)
                                 (* x, gx, fx = exact_linesearch_step(x0, f, dirs) (exact_linesearch_step.py):
                                    x = Point(); gx, fx = f.oracle(x); f.add_constraint((x - x0) * gx == 0);
                                    for d in dirs: f.add_constraint(d * gx == 0) *)
+| MEpsSub (f : nat) (p : pdict)
+                                (* x, g0, f0, epsilon = epsilon_subgradient_step(p, f, gamma) (epsilon_subgradient_step.py):
+                                   g0 = Point(); f0 = f.value(p) (an oracle call: fresh gradient leaf, fresh value leaf);
+                                   epsilon = Expression(); y = Point(); fy = Expression(); f.add_point((y, g0, fy));
+                                   f.add_constraint(f0 + (g0 * y - fy) - g0 * p <= epsilon);
+                                   the returned x = p - gamma * g0 is not recorded anywhere *)
+| MBregGrad (h : nat) (gx0 sx0 : pdict) (gamma : Q)
+                                (* x, sx, hx = bregman_gradient_step(gx0, sx0, h, gamma) (bregman_gradient_step.py):
+                                   x = Point(); hx = Expression(); sx = sx0 - gamma * gx0; h.add_point((x, sx, hx)) *)
+| MBregProx (h f : nat) (sx0 : pdict) (gamma : Q).
+                                (* x, sx, hx, gx, fx = bregman_proximal_step(sx0, h, f, gamma) (bregman_proximal_step.py):
+                                   x = Point(); gx = Point(); fx = Expression(); sx = sx0 - gamma * gx; hx = Expression();
+                                   f.add_point((x, gx, fx)); h.add_point((x, sx, hx)) *)
 
 Definition msample : Type := (pdict * pdict * edict)%type.
 
@@ -64,6 +77,23 @@ Definition ls_vp (n : nat) (d : pdict) : nat -> pdict :=
 Definition ls_cons (n : nat) (d : pdict) : edict * sense :=
   compileC (fun _ => 0%Q) (ls_vp n d) (fun _ => []) (CEqS (XInner (PVar 0) (PVar 1)) (SNum 0)).
 
+(** the epsilon-subgradient constraint of epsilon_subgradient_step, as the operator overloads build it
+    ([fstarg0 = g0 * y - fy] inlined; same formula as the one the translator reads into Gen/Steps.v): point variables
+    x0 = 0 (the dictionary p), g0 = 1 (leaf n), y = 3 (leaf S (S n)); expression variables f0 = 0 (leaf e),
+    epsilon = 1 (leaf S e), fy = 2 (leaf S (S e)) *)
+Definition epssub_formula : cterm :=
+  CLe (XSub (XAdd (XVar 0) (XSub (XInner (PVar 1) (PVar 3)) (XVar 2))) (XInner (PVar 1) (PVar 0))) (XVar 1).
+Definition epssub_vp (n : nat) (p : pdict) : nat -> pdict :=
+  fun v => match v with O => p | S O => [(n, 1%Q)] | _ => [(S (S n), 1%Q)] end.
+Definition epssub_vx (e : nat) : nat -> edict :=
+  fun v => match v with O => [(KF e, 1%Q)] | S O => [(KF (S e), 1%Q)] | _ => [(KF (S (S e)), 1%Q)] end.
+Definition epssub_cons (n e : nat) (p : pdict) : edict * sense :=
+  compileC (fun _ => 0%Q) (epssub_vp n p) (epssub_vx e) epssub_formula.
+
+(** the gradient of the mirror map recorded by the two Bregman steps: [sx0 - gamma * g] is Point.__rmul__ (no
+    pruning) then Point.__sub__ (merge, prune); add_point prunes it in place once more *)
+Definition breg_dual (sx0 g : pdict) (gamma : Q) : pdict := prune (p_sub sx0 (p_scal gamma g)).
+
 Definition mstep (s : mstate) (o : mop) : mstate :=
   match o with
   | MFresh => mkM (S (m_np s)) (m_ne s) (m_samples s) (m_cons s)
@@ -93,6 +123,23 @@ Definition mstep (s : mstate) (o : mop) : mstate :=
       mkM (S (S (m_np s))) (S (m_ne s))
           (m_samples s ++ [(f, ([(m_np s, 1%Q)], [(S (m_np s), 1%Q)], [(KF (m_ne s), 1%Q)]))])
           (m_cons s ++ (f, ls_cons0 (m_np s) x0) :: map (fun d => (f, ls_cons (m_np s) d)) dirs)
+  | MEpsSub f p =>
+      (* the fresh leaf g0 = m_np s, the oracle call at p (gradient leaf S (m_np s), value leaf m_ne s), the fresh
+         value leaf epsilon = S (m_ne s), the fresh leaves y = S (S (m_np s)) and fy = S (S (m_ne s)), the sample
+         (y, g0, fy) and the constraint on f *)
+      mkM (S (S (S (m_np s)))) (S (S (S (m_ne s))))
+          (m_samples s ++ [(f, (p, [(S (m_np s), 1%Q)], [(KF (m_ne s), 1%Q)]));
+                           (f, ([(S (S (m_np s)), 1%Q)], [(m_np s, 1%Q)], [(KF (S (S (m_ne s))), 1%Q)]))])
+          (m_cons s ++ [(f, epssub_cons (m_np s) (m_ne s) p)])
+  | MBregGrad h gx0 sx0 gamma =>
+      mkM (S (m_np s)) (S (m_ne s))
+          (m_samples s ++ [(h, ([(m_np s, 1%Q)], breg_dual sx0 gx0 gamma, [(KF (m_ne s), 1%Q)]))]) (m_cons s)
+  | MBregProx h f sx0 gamma =>
+      (* x = m_np s, gx = S (m_np s), fx = m_ne s, hx = S (m_ne s); first the sample on f, then the one on h *)
+      mkM (S (S (m_np s))) (S (S (m_ne s)))
+          (m_samples s ++ [(f, ([(m_np s, 1%Q)], [(S (m_np s), 1%Q)], [(KF (m_ne s), 1%Q)]));
+                           (h, ([(m_np s, 1%Q)], breg_dual sx0 [(S (m_np s), 1%Q)] gamma, [(KF (S (m_ne s)), 1%Q)]))])
+          (m_cons s)
   end.
 
 Definition mrun (ops : list mop) (s : mstate) : mstate := fold_left mstep ops s.
@@ -113,6 +160,10 @@ Definition op_wf (s : mstate) (o : mop) : bool :=
   | MInexact _ p _ _ => keys_below (m_np s) p
   | MLineSearch _ x0 dirs =>
       keys_below (m_np s) x0 && nodupb (keys x0) && forallb (fun d => keys_below (m_np s) d && nodupb (keys d)) dirs
+  | MEpsSub _ p => keys_below (m_np s) p && nodupb (keys p)
+  | MBregGrad _ gx0 sx0 _ =>
+      keys_below (m_np s) gx0 && nodupb (keys gx0) && keys_below (m_np s) sx0 && nodupb (keys sx0)
+  | MBregProx _ _ sx0 gamma => keys_below (m_np s) sx0 && nodupb (keys sx0) && qpos gamma
   | _ => true
   end.
 
@@ -123,9 +174,13 @@ Fixpoint mwf (ops : list mop) (s : mstate) : bool :=
   end.
 
 (** a linear-optimization step whose direction is the zero vector records a sample with an EMPTY gradient
-    dictionary, which PEPit then also lists as a stationary point of the function *)
+    dictionary, which PEPit then also lists as a stationary point of the function; likewise a Bregman gradient step
+    whose dual point sx0 - gamma * gx0 is the zero vector, and a Bregman proximal step of step size 0 (for a non-zero
+    step size the recorded dual point mentions the fresh leaf gx) *)
 Definition linopt_dir_nonzero (o : mop) : bool :=
   match o with
   | MLinOpt _ dir => match prune (p_neg dir) with [] => false | _ => true end
+  | MBregGrad _ gx0 sx0 gamma => match breg_dual sx0 gx0 gamma with [] => false | _ => true end
+  | MBregProx _ _ _ gamma => negb (Qeq_bool gamma 0)
   | _ => true
   end.
